@@ -382,9 +382,9 @@ CONTRACTS = {
     (C, 'slice_copy'): {'params': {'x': 'intlist'}, 'requires': ['len(x) > 0'], 'raises': {}, 'returns': 'intlist',
                         'ensures': ['len(x) == len(old(x))', 'forall(lambda j: not (0 <= j and j < len(x)) or x[j] == old(x)[j])',
                                     'result[0] == 99', 'len(result) == len(x)']},
-    (C, 'alias_store'): {'params': {'x': 'intlist'}, 'requires': ['len(x) > 0'], 'raises': {}, 'returns': 'intlist',
+    (C, 'alias_store'): {'modifies': ['x'], 'params': {'x': 'intlist'}, 'requires': ['len(x) > 0'], 'raises': {}, 'returns': 'intlist',
                          'ensures': ['x[0] == 99', 'result[0] == 99', 'len(x) == len(old(x))']},
-    (C, 'iadd_alias'): {'params': {'x': 'intlist'}, 'raises': {}, 'returns': 'int',
+    (C, 'iadd_alias'): {'modifies': ['x'], 'params': {'x': 'intlist'}, 'raises': {}, 'returns': 'int',
                         'ensures': ['result == len(old(x)) + 1', 'len(x) == len(old(x)) + 1', 'x[len(x) - 1] == 7']},
     (C, 'add_copy'): {'params': {'x': 'intlist'}, 'raises': {}, 'returns': 'int',
                       'ensures': ['result == len(old(x)) + 1', 'len(x) == len(old(x))']},
@@ -405,7 +405,7 @@ CONTRACTS = {
     (C, 'minmaxabs'): {'params': {'a': 'int', 'b': 'int'}, 'raises': {}, 'returns': 'int',
                        'ensures': ['(a >= b and a >= 0 and result == a - b + a) or (a >= b and a < 0 and result == a - b - a) or '
                                    '(a < b and a >= 0 and result == b - a + a) or (a < b and a < 0 and result == b - a - a)']},
-    (C, 'pop_append'): {'params': {'x': 'intlist', 'v': 'int'}, 'raises': {}, 'returns': 'int',
+    (C, 'pop_append'): {'modifies': ['x'], 'params': {'x': 'intlist', 'v': 'int'}, 'raises': {}, 'returns': 'int',
                         'ensures': ['result == v', 'len(x) == len(old(x))']},
     (C, 'opt_default'): {'params': {'a': 'int', 'b': 'none'}, 'raises': {}, 'returns': 'int', 'ensures': ['result == a + 10'],
                          'native_args': ['a']},
@@ -414,7 +414,7 @@ CONTRACTS = {
     (C, 'comp_range'): {'params': {'n': 'int'}, 'raises': {}, 'returns': 'intlist',
                         'ensures': ['(n >= 0 and len(result) == n) or (n < 0 and len(result) == 0)',
                                     'forall(lambda j: not (0 <= j and j < len(result)) or result[j] == 2 * j + 1)']},
-    (C, 'neg_flip'): {'params': {'x': 'intlist', 'i': 'int'}, 'requires': ['-len(x) <= i and i < len(x)'], 'raises': {}, 'returns': 'int',
+    (C, 'neg_flip'): {'modifies': ['x'], 'params': {'x': 'intlist', 'i': 'int'}, 'requires': ['-len(x) <= i and i < len(x)'], 'raises': {}, 'returns': 'int',
                       'ensures': ['(i >= 0 and result == -old(x)[i]) or (i < 0 and result == -old(x)[len(x) + i])', 'len(x) == len(old(x))']},
     # (no case for `try: x[i] except IndexError`: exceptions of primitive operations are hazard obligations in pyvc, also inside a
     #  try block - a function that relies on catching them is reported as a hazard, which is conservative, never unsound)
